@@ -1,0 +1,27 @@
+/*
+ * SPDX-FileCopyrightText: © 2017-2025 Istari Digital, Inc.
+ * SPDX-License-Identifier: Apache-2.0
+ */
+
+package simd
+
+// Search finds the first idx for which xs[2*idx] >= k in xs, or len(xs)/2 if there is none.
+//
+// The assembly routine compares four keys per iteration without looking at the length in
+// between, so it is only given the longest prefix whose length is a multiple of 8; the
+// remaining (at most three) keys are compared here. This keeps the routine from reading,
+// and reporting matches in, memory beyond len(xs).
+func Search(xs []uint64, k uint64) int16 {
+	n := len(xs) &^ 7
+	if n > 0 {
+		if idx := search(xs[:n], k); int(idx) < n/2 {
+			return idx
+		}
+	}
+	for i := n; i < len(xs); i += 2 {
+		if xs[i] >= k {
+			return int16(i / 2)
+		}
+	}
+	return int16(len(xs) / 2)
+}
